@@ -121,12 +121,42 @@ def gen_case(rng, audios, k=8):
     return dict(grammar=g, kind=kind, audio=au, cfg=cfg, cut=cut, mids=mids, beam=beamk, k=k)
 
 
+def aim_case(rng, case, audios, stats=None):
+    """aim the cut point and the mid-utterance requests of a case just after word ends: one extra decode of the whole
+    recording gives the first-best word boundaries; the audio is then cut 0..25 frames after one of them (an utterance
+    cut off shortly after a word leaves dead-end word instances in the history) and the lattice is requested after
+    several others.  Falls back to the unaimed case when the full decode has no word segment."""
+    n = os.path.getsize(audios[case["audio"]]) // 2
+    probe = dict(case, cut=n, mids=[], k=0, ops=None)
+    cmds = case_cmds(probe, audios, bp=0)
+    try:
+        binp = vlib.build_harness("h_c11")
+        rc, out, err = vlib.run_bin(binp, stdin_text="\n".join(cmds) + "\n", leaks=False, timeout=300)
+    except Exception:
+        return case
+    lats = parse(out) if rc == 0 else []
+    ends = sorted(set(x[2] for d in lats for x in d["X"] if x[0] not in ("(NULL)", None) and x[2] >= 0))
+    if not ends:
+        return case
+
+    def pos(ef):
+        return min(n, (ef + 1 + rng.range(0, 25)) * 160 + rng.range(0, 159))
+    cut = pos(rng.choice(ends))
+    mids = sorted(set(p2 for p2 in (pos(rng.choice(ends)) for _ in range(rng.range(2, 6))) if p2 < cut))
+    if stats is not None:
+        stats["generator:cut-aimed-after-a-word-end"] = stats.get("generator:cut-aimed-after-a-word-end", 0) + 1
+    return dict(case, cut=cut, mids=mids, aimed=True)
+
+
 def case_cmds(case, audios, bp=1):
     cmds = ["newdec " + " ".join(case["cfg"]), "jsgf " + case["grammar"].encode().hex(), "audio " + audios[case["audio"]], "start"]
     pos = 0
     ops = " " + case["ops"] if case.get("ops") else ""
     for i, m in enumerate(case["mids"]):
-        cmds += [f"proc {m - pos}", f"lat mid{i} {min(case['k'], 200)} {bp}{ops}"]
+        if case.get("sweep"):
+            cmds += [f"proc {m - pos}", f"lat mid{i} 0 2"]      # light request (no history dump, no search passes)
+        else:
+            cmds += [f"proc {m - pos}", f"lat mid{i} {min(case['k'], 200)} {bp}{ops}"]
         pos = m
     cmds += [f"proc {case['cut'] - pos}", "end", f"lat end {case['k']} {bp}{ops}"]
     return cmds
@@ -269,7 +299,7 @@ def driver_block(d, k, with_build=True):
         lines.append("segs")
         for (w, sf, ef, _, _) in segs:
             lines.append(f"s {tab[w]} {sf} {ef}")
-    if with_build:
+    if with_build and not d.get("nohist"):
         for h in d["hist"]:
             if h is None:
                 lines.append("h -1 -1 -1 0 0 0")
@@ -336,6 +366,16 @@ def parse_driver(out):
     return reps
 
 
+def sweep_case(rng, audios, grammar, audio, cfg, cut_after_frame=None, step_frames=8, kind="sweep"):
+    """one decode with a lattice request every `step_frames` frames (light requests) and a full request at the end;
+    `cut_after_frame`: stop the audio shortly after that frame (an utterance cut off just after a word)"""
+    n = os.path.getsize(audios[audio]) // 2
+    cut = n if cut_after_frame is None else min(n, (cut_after_frame + 1 + rng.range(0, 20)) * 160 + rng.range(0, 159))
+    first = rng.range(1, step_frames) * 160
+    mids = list(range(first, cut, step_frames * 160 + rng.range(0, 40)))
+    return dict(grammar=grammar, kind=kind, audio=audio, cfg=list(cfg), cut=cut, mids=mids, beam="default" if not cfg else "other", k=8, sweep=True)
+
+
 def run_case(binp, case, audios, timeout=600):
     cmds = case_cmds(case, audios)
     # other checks running concurrently may prune the build cache: make sure the binary is there
@@ -349,6 +389,10 @@ def run_case(binp, case, audios, timeout=600):
             if attempt == 2:
                 raise
     lats = parse(out)
+    if case.get("sweep"):
+        for d in lats:
+            if d["tag"] != "end":
+                d["nohist"] = True
     return rc, out, err, lats
 
 
@@ -433,6 +477,8 @@ def canon_lattice_m(rep):
 def lat_stats(stats, d, case):
     def inc(k, by=1):
         stats[k] = stats.get(k, 0) + by
+    if case.get("sweep") and d["tag"] != "end":
+        inc("request:light-sweep-position")
     inc(f"grammar:{case['kind']}")
     inc(f"beam:{case['beam']}")
     inc(f"audio:{case['audio']}")
@@ -624,7 +670,20 @@ def check(c):
     ncases = 22 if c.tier == "quick" else 700
     cases = [dict(x, _corpus=True) for x in load_corpus("C11")]
     ncorp = len(cases)
-    cases += [gen_case(rng, audios) for _ in range(ncases)]
+    for _ in range(ncases):
+        cs = gen_case(rng, audios)
+        if rng.chance(0.5):
+            cs = aim_case(rng, cs, audios, stats)
+        cases.append(cs)
+    # position sweeps: one decode, a (light) lattice request every few frames — requests are cheap compared with the decode
+    lin = "#JSGF V1.0; grammar g; public <g> = go forward ten meters ;"
+    br = "#JSGF V1.0; grammar g; public <g> = go (forward | backward | for ward) (ten | one | two | tend | a) [meter | meters | meet] ;"
+    cases.append(sweep_case(rng, audios, lin, "goforward", [], None, 4))
+    cases.append(sweep_case(rng, audios, br, "goforward", [], rng.choice([None, 152, 210]), 4))
+    for _ in range(2 if c.tier == "quick" else 80):
+        g, kind = gen_grammar(rng)
+        au = rng.weighted([("goforward", 5), ("goforward_fr", 2), ("pizza", 3)])
+        cases.append(sweep_case(rng, audios, g, au, BEAMS[rng.choice(["default", "default", "narrow", "wide"])], None, rng.range(3, 7), kind=kind))
     nlat, build_ok, nbuild, distinct = 0, True, 0, set()
     harness_ok = True
     viols, nmism = [], 0
